@@ -2,8 +2,8 @@ SPECIFICATION Spec
 CONSTANTS D = 4
           NPre = 2
           NE = 4
-          EMin = 1
-          EMax = 2
+          EnSet <- E12
+          TMax = 8
           Dirs = {"ltr"}
           Caps = {1, 2, 3, 99}
           Canon = TRUE
